@@ -24,6 +24,7 @@ CONSTANTS
   Weak_PruneDropsCheckpoint = FALSE
   Weak_NoCheckpointRecord = FALSE
   Weak_RecoveryCopyDropsValUpdates = FALSE
+  Weak_PruneStatesOneTooFar = FALSE
 INIT Init
 NEXT Next
 INVARIANTS LookupExact RecoveryExact ProposerDeterministic PruneKeeps TruthWellFormed ProposerIsMember PruneNeverFails
